@@ -673,4 +673,7 @@ def lowerKw (k : Kind) (s : String) : String := if k.isKeyword then lowerStr s e
 /-- forget the lexeme of keyword-kind tokens, leave every other lexeme alone -/
 def eraseKw (k : Kind) (s : String) : String := if k.isKeyword then "" else s
 
+/-- all token kinds (completeness: `Kind.mem_all`, Proofs/OalExpr.lean) -/
+def Kind.all : List Kind := [.ASSIGN, .ASSIGNER, .BREAK, .BRIDGE, .SEND, .CONTROL, .STOP, .CONTINUE, .CREATE, .EVENT, .INSTANCE, .OF, .OBJECT, .DELETE, .FOR, .EACH, .IN, .GENERATE, .IF, .ELIF, .ELSE, .RELATE, .TO, .ACROSS, .USING, .RETURN, .SELECT, .ONE, .ANY, .MANY, .TRANSFORM, .UNRELATE, .FROM, .WHILE, .CLASS, .CREATOR, .RELATED, .BY, .INSTANCES, .WHERE, .CARDINALITY, .EMPTY, .FALSE, .NOT, .NOT_EMPTY, .TRUE, .AND, .OR, .PARAM, .RCVD_EVT, .SELF, .SELECTED, .LOOP, .THEN, .SEMICOLON, .EQUAL, .DOT, .DOUBLECOLON, .LPAREN, .RPAREN, .TIMES, .COLON, .COMMA, .ARROW, .LSQBR, .RSQBR, .ID, .NAMESPACE, .END_FOR, .END_IF, .END_WHILE, .TICKED_PHRASE, .QMARK, .FRACTION, .NUMBER, .STRING, .DOUBLEEQUAL, .NOTEQUAL, .LESSTHAN, .LE, .GT, .GE, .PLUS, .MINUS, .PIPE, .DIV, .MOD, .AMP, .CARET]
+
 end Pyx.Oal
